@@ -116,6 +116,10 @@ class Scene:
             for v in G.nodes:
                 if rng.random() < 0.3:
                     self.own_color[v] = "".join(rng.choice("0123456789ABCDEF") for _ in range(6))
+                    if rng.random() < 0.25:
+                        # an explicitly given black (the colour of uncoloured nodes) or a repeat of an ancestor's colour
+                        anc_cols = [self.own_color[a] for a in G.anc[v] if a != v and a in self.own_color]
+                        self.own_color[v] = rng.choice(["000000", "000000", "FFFFFF"] + anc_cols)
         for v, col in self.own_color.items():
             self.gnode[v].add_feature("color", col)
         self.expected_color = {}
